@@ -180,7 +180,9 @@ func (s *Store) DiscardPendingCheckpoint() {
 func (s *Store) RegisterSourceSplitter(splitter connectors.SourceSplitter) {
 	s.stateMu.Lock()
 	defer s.stateMu.Unlock()
-	s.sourceSplitters = append(s.sourceSplitters, splitter)
+	// Every start of an assembly creates a new splitter for its source
+	// runners; the splitter of the previous assembly is obsolete.
+	s.sourceSplitters = []connectors.SourceSplitter{splitter}
 }
 
 func (s *Store) finishSnapshot(snap *jobSnapshot) {
